@@ -8,7 +8,8 @@
                       0 = it is false (violation)
                       . = the implementation's response could not be parsed (harness error token)
 
-   case line:  Q <id> <max_paths> <fabrics> <accessor> <nodes> <requests>   (see c06.rs) *)
+   case line:  Q <id> <max_paths> <fabrics> <accessor> <nodes> <requests>   (see c06.rs);
+   fabrics = alternative ACL tables joined by '!', a switch k>j/a puts node j and table a in force *)
 open Model
 open Util
 
@@ -103,7 +104,7 @@ let parse_item (s : string) : item =
 let parse_op = function
   | "R" -> Read | "W" -> Write | "I" -> Invoke | s -> failwith ("bad op " ^ s)
 
-type preq = { rq : imreq; swaps : (int * int) list; nitems : int }
+type preq = { rq : imreq; swaps : (int * int * int) list; nitems : int }
 
 let parse_req (s : string) : preq =
   match String.split_on_char ',' s with
@@ -112,7 +113,10 @@ let parse_req (s : string) : preq =
       { rq = { rq_win = opt_n win; rq_elapsed = n_of_string elapsed; rq_op = parse_op op;
                rq_flag = (flag = "1"); rq_ff = (ff = "1"); rq_items = its };
         swaps = plist (fun x -> match String.split_on_char '>' x with
-                         | [k; j] -> (int_of_string k, int_of_string j)
+                         | [k; j] ->
+                             (match String.split_on_char '/' j with
+                              | [j; a] -> (int_of_string k, int_of_string j, int_of_string a)
+                              | _ -> (int_of_string k, int_of_string j, 0))
                          | _ -> failwith ("bad swap " ^ x)) ':' swaps;
         nitems = List.length its }
   | _ -> failwith ("bad request " ^ s)
@@ -220,21 +224,23 @@ let () =
       match String.split_on_char ' ' case_line with
       | ["Q"; id; mp; fabs; acc; nodes; reqs] ->
           let max_paths = nat_of_int (int_of_string mp) in
-          let fabrics = plist parse_fabric '|' fabs in
+          let tables = List.map (plist parse_fabric '|') (String.split_on_char '!' fabs) in
+          let tab_arr = Array.of_list tables in
           let who = parse_accessor acc in
           let nds = List.map parse_node (String.split_on_char '#' nodes) in
           let nd_arr = Array.of_list nds in
           let rqs = List.map parse_req (String.split_on_char ';' reqs) in
           let leaves_sum = List.fold_left (fun a n -> a + total_leaves n) 0 nds in
-          let cfg j = { cf_node = nd_arr.(min j (Array.length nd_arr - 1)); cf_fabs = fabrics } in
-          let c0 = cfg 0 in
+          let cfg j a = { cf_node = nd_arr.(min j (Array.length nd_arr - 1));
+                          cf_fabs = tab_arr.(min a (Array.length tab_arr - 1)) } in
+          let c0 = cfg 0 0 in
           if spec_mode then begin
             let impl = match String.split_on_char ' ' impl_line with
               | "Q" :: _ :: rest -> rest
               | _ -> [] in
             let buf = Buffer.create 16 in
             List.iteri (fun k r ->
-              let sw = List.map (fun (kk, j) -> (nat_of_int kk, cfg j)) r.swaps in
+              let sw = List.map (fun (kk, j, a) -> (nat_of_int kk, cfg j a)) r.swaps in
               match List.nth_opt impl k with
               | None -> Buffer.add_char buf '.'
               | Some s ->
@@ -245,7 +251,7 @@ let () =
             Printf.printf "Q %s %s\n" id (Buffer.contents buf)
           end else begin
             let outs = List.map (fun r ->
-              let sw = List.map (fun (kk, j) -> (nat_of_int kk, cfg j)) r.swaps in
+              let sw = List.map (fun (kk, j, a) -> (nat_of_int kk, cfg j a)) r.swaps in
               let fuel = nat_of_int ((r.nitems + 1) * (leaves_sum + 2) + 2) in
               show_resp (im_handle fuel max_paths who c0 sw r.rq)) rqs in
             Printf.printf "Q %s %s\n" id (String.concat " " outs)
